@@ -19,7 +19,7 @@ META = dict(
     technique="dense basis-vector probing of generated operator expression trees against a "
               "reference matrix algebra and a reference capability calculus",
     rule=("case = random expression AST (depth <= 3 quick / <= 5 thorough) over + - @ scalar* neg "
-          ".adjoint .inverse on a DomainTuple (1-2 sub-spaces, <= 12 pixels, optional harmonic "
+          ".adjoint .inverse (and adjoint-inverse in one step) on a DomainTuple (1-2 sub-spaces, <= 12 pixels, optional harmonic "
           "partner) or a 2-key MultiDomain with its two 1-key sub-domains; leaves: ScalingOperator "
           "(real, complex, 1, 0), DiagonalOperator (real/complex, full/partial spaces, every _trafo), "
           "MatrixProductOperator (plain / flatten / partial spaces), SandwichOperator.make, "
@@ -29,9 +29,14 @@ META = dict(
           "naive Sum/Chain/Adapter nesting] or partial-space diagonal or _trafo != 0 diagonal or "
           "complex scalar); distinct = distinct AST descriptor"),
     assumptions=[
+        "tolerance: max|M_observed - M_reference| <= 1e-9 * S, S = largest entry of the entry-wise "
+        "magnitude bound of the expression (|A|+|B| for sums, |A||B| for chains, |inv| for inverses): "
+        "rounding errors are relative to the operands, not to a possibly cancelled result "
+        "(e.g. F.inverse - F.adjoint/vol)",
         "inverse modes are compared only when every square sub-expression has cond <= 1e4 "
-        "(leaf spectra in [0.4, 2.5]); zero scalings / singular sums are generated but then only "
-        "forward and adjoint modes are compared",
+        "(leaf spectra in [0.4, 2.5]) and no sub-expression lost more than a factor 1e2 through "
+        "cancellation; zero scalings / singular sums are generated but then only forward and "
+        "adjoint modes are compared",
         "`.inverse` nodes are generated only on sub-expressions whose reference matrix is square "
         "with cond <= 1e3",
         "MatrixProductOperator exists only as an endomorphic (square) operator in this NIFTy "
@@ -61,9 +66,6 @@ RTOL = 1e-9
 def init(ck):
     import nifty.cl as ift
     ck.state["ift"] = ift
-    # MatrixProductOperator.apply contains a stray print(); keep worker logs small
-    import builtins
-    ck.state["print"] = builtins.print
 
 
 class Node:
@@ -457,7 +459,7 @@ class Gen:
         if depth <= 0 or len(self.nodes) >= self.budget:
             return self.reg(gen_leaf(I, rng, W, X, Y))
         pool = W["pool"]
-        ops = ["sum", "diff", "chain", "chain", "scal", "neg", "adj", "inv"]
+        ops = ["sum", "diff", "chain", "chain", "scal", "neg", "adj", "inv", "adjinv"]
         o = ops[int(rng.integers(0, len(ops)))]
         if o in ("sum", "diff"):
             neg = o == "diff"
@@ -512,6 +514,18 @@ class Gen:
             a = self.gen(X, Y, depth - 1)
             return self.reg(self.combine(-a.op, -a.M, a.cap, X, Y, ["neg", a.desc], o,
                                          "ChainOperator", (a,), scale=a.S))
+        if o == "adjinv":
+            # adjoint-inverse in one step: .adjoint.inverse, .inverse.adjoint or the documented
+            # internal entry point _flip_modes(ADJOINT_BIT|INVERSE_BIT) (used by InversionEnabler)
+            a = self.gen(X, Y, depth - 1)
+            if a.square and a.cmax <= 1e3 and a.amp <= 1e2:
+                how = int(rng.integers(0, 4)) % 3
+                op = [lambda: a.op._flip_modes(3), lambda: a.op.adjoint.inverse, lambda: a.op.inverse.adjoint][how]()
+                Mi = np.linalg.inv(a.M).T
+                return self.reg(self.combine(op, Mi, L.cap_inverse(L.cap_adjoint(a.cap)), X, Y,
+                                             ["adjinv", how, a.desc], "adjinv", "OperatorAdapter", (a,),
+                                             scale=np.abs(Mi) * a.amp))
+            return a
         a = self.gen(Y, X, depth - 1)
         if o == "inv" and a.square and a.cmax <= 1e3 and a.amp <= 1e2:
             op = a.op.inverse
